@@ -5,7 +5,7 @@
    Euclidean accounting identity for level/residue).  No proofs in this file. *)
 From Coq Require Import NArith ZArith List Bool String.
 From Verif.lib Require Import Term.
-From Verif.model Require Import Overflow Rewards.
+From Verif.model Require Import Overflow Rewards RewardsPool.
 Import ListNotations.
 Open Scope N_scope.
 
@@ -90,7 +90,7 @@ Definition parse_obs (t : term) : option (option rstate * bool) :=
   | _ => None
   end.
 
-Definition check (t : term) : term :=
+Definition check_nrs (t : term) : term :=
   match t with
   | TL [TS "nrs"; TZ level; TZ rate; TZ residue; TZ recalc; TZ nextRound;
         TZ minbal; TZ interval; TZ pending; TZ cfix; TZ pool; TZ units; obs] =>
@@ -116,4 +116,47 @@ Definition check (t : term) : term :=
                   (refreshes || moves) (t_rstate m)
       end
   | _ => v_parse
+  end.
+
+(* case: (pool prevLevel newLevel poolOld units minBalance OBS): one call of the real
+   StartEvaluator;  OBS : (ok poolNew) | (err levels|withdraw|minbalance)                  *)
+Definition t_wres (w : wres) : term :=
+  match w with
+  | WOk pn => TL [TS "ok"; tn pn]
+  | WErrLevels => TL [TS "err"; TS "levels"]
+  | WErrWithdraw => TL [TS "err"; TS "withdraw"]
+  | WErrMinBalance => TL [TS "err"; TS "minbalance"]
+  end.
+
+Definition parse_wres (t : term) : option wres :=
+  match t with
+  | TL [TS "ok"; TZ pn] => if (0 <=? pn)%Z then Some (WOk (Z.to_N pn)) else None
+  | TL [TS "err"; TS e] =>
+      if String.eqb e "levels" then Some WErrLevels
+      else if String.eqb e "withdraw" then Some WErrWithdraw
+      else if String.eqb e "minbalance" then Some WErrMinBalance
+      else None
+  | _ => None
+  end.
+
+Definition check_pool (t : term) : term :=
+  match t with
+  | TL [TS "pool"; TZ prev; TZ new; TZ pool; TZ units; TZ minbal; obs] =>
+      let nn := fun z => (0 <=? z)%Z && lt64 (Z.to_N z) in
+      if negb (nn prev && nn new && nn pool && nn units && nn minbal) then v_parse else
+      match parse_wres obs with
+      | None => v_parse
+      | Some o =>
+          let m := withdraw (Z.to_N prev) (Z.to_N new) (Z.to_N pool) (Z.to_N units) (Z.to_N minbal) in
+          verdict (spec_ok_pool (Z.to_N prev) (Z.to_N new) (Z.to_N pool) (Z.to_N units) (Z.to_N minbal) o)
+                  (term_eqb obs (t_wres m))
+                  (negb (Z.eqb prev new) && negb (Z.eqb units 0)) (t_wres m)
+      end
+  | _ => v_parse
+  end.
+
+Definition check (t : term) : term :=
+  match t with
+  | TL (TS "pool" :: _) => check_pool t
+  | _ => check_nrs t
   end.
